@@ -93,3 +93,42 @@ func VerifHarness_Cancel() {
 	// nothing is left running or blocked behind the wait
 	errors.VerifAssert("no-core-left-running-or-blocked", errors.VerifLiveGoroutines() <= base)
 }
+
+// Staggered cores under cancellation: a core that ends at once, a core that ends after a delay, and an endless core
+// spawned after main waited a while (so the wait loop has collected the first core in between); main then ends.
+// The program can only end by the host's cancellation: Wait must not return before it, must then report the
+// termination, and no core may be left behind. The delays and the cancellation poll are selectors.
+const verifCancelStaggeredProgram = "let t = 0;\n" +
+	"fn quick() {\n  t += 1;\n}\n" +
+	"fn mid() {\n  let i = 0;\n  while i < S {\n    i += 1;\n    t += 1;\n  }\n}\n" +
+	"fn forever() {\n  loop {\n    t += 1;\n  }\n}\n" +
+	"fn main() {\n  spawn quick();\n  spawn mid();\n  let j = 0;\n  while j < M {\n    j += 1;\n    t += 1;\n  }\n  spawn forever();\n}\n"
+
+func VerifHarness_CancelStaggered() {
+	s := errors.VerifNdIntRange("S", 1, errors.VerifParam("S", 5))
+	m := errors.VerifNdIntRange("M", 0, errors.VerifParam("M", 5))
+	P := errors.VerifParam("P", 12)
+	cancelAt := errors.VerifNdIntRange("cancelAt", P/2, P)
+	errors.VerifTag("delays", fmt.Sprint("S=", s, " M=", m))
+	inputs := []verifInput{{name: "S", kind: 'i', i: int64(s)}, {name: "M", kind: 'i', i: int64(m)}}
+	an := verifAnalyze(verifCancelStaggeredProgram, nil, inputs, true)
+	if an.hasError {
+		errors.VerifInconclusive("program rejected: " + an.describe())
+	}
+	ctx := newVerifCtx()
+	ctx.cancelAt = cancelAt
+	base := errors.VerifLiveGoroutines()
+	var o verifOutcome
+	panicked, msg := errors.VerifPanics(func() { o = verifRunVM(an, nil, inputs, verifLimits, ctx) })
+	if panicked {
+		errors.VerifTag("panic", errors.VerifNorm(msg))
+	}
+	errors.VerifAssert("cancellation-never-crashes-the-host", !panicked)
+	if panicked {
+		return
+	}
+	errors.VerifReached("returned")
+	errors.VerifAssert("wait-does-not-return-before-the-cancellation", ctx.polls > cancelAt || o.class == "terminated")
+	errors.VerifAssert("cancelled-run-ends-with-termination-interrupt", o.class == "terminated")
+	errors.VerifAssert("no-core-left-running-or-blocked", errors.VerifLiveGoroutines() <= base)
+}
